@@ -366,6 +366,33 @@ def run(tier):
             rep.violation({'part': 'descriptor_handoff', 'unix_socket': bool(unix_path), 'symptom': v['symptom']},
                           {'thread_choices': choices, 'trace': trace, 'detail': v['detail']})
     rep.sample({'thread_interleaving': 'acceptor0:lock.acquire acceptor0:queue.send executor:queue.recv ...'})
+    # part 3 (configuration lattice, live processes): the dispatch from acceptors to workers is part of a mode;
+    # every (acceptors, workers) shape x mode is started for real, six clients one after the other get the same
+    # answers in every mode
+    from .. import cfgmc
+    shapes = [(1, 1), (2, 1), (1, 2), (2, 2), (3, 2)] if tier == 'quick' else [(a, w2) for a in (1, 2, 3, 4) for w2 in (1, 2, 3)]
+    pts = [{'mode': m, 'workers': w2, 'acceptors': a, 'probes': 6, 'hostname': '127.0.0.1', 'hostnames': [], 'port': 0, 'ports': [],
+            'unix': False, 'files': False, 'hashseed': 0} for (a, w2) in shapes for m in ('threaded', 'local', 'remote')]
+
+    def judge3(pt, r):
+        if 'harness_error' in r:
+            return [('harness_error', r)]
+        if 'exception' in r:
+            return [('start_or_shutdown_raised', {'exception': r['exception']})]
+        ans = sorted((k.split('#')[1] if '#' in k else '0', tuple(v)) for k, v in r.get('probes_up', {}).items())
+        if [a[1] for a in ans] != [('answered', 'HTTP/1.1 400 BAD REQUEST')] * 6:      # origin-form request to a pure proxy
+            return [('clients_not_answered_as_in_the_other_modes', {'answers': ans})]
+        return []
+    cst = {}
+    n3 = 0
+    for pt, r, verdicts in cfgmc.run_judged('mc.c19point', pts, judge3, timeout=120, stats=cst):
+        n3 += 1
+        for sym, detail in verdicts:
+            rep.violation({'part': 'live_dispatch', 'mode': pt['mode'], 'acceptors': pt['acceptors'], 'workers': pt['workers'],
+                           'symptom': sym}, {'point': pt, 'detail': detail})
+    rep.add(live_points=n3, states=n3, transitions=n3 * 6, traces_validated_against_impl=n3,
+            points_rerun_for_confirmation=cst.get('points_rerun_for_confirmation', 0),
+            points_not_reproduced=cst.get('points_not_reproduced', 0))
     return rep.finish()
 
 
